@@ -22,6 +22,13 @@ static size_t make_source(int kind, size_t n, u8* p) {
     case 1: for (size_t i = 0; i < n; i++) p[i] = (u8)("abcdefgh"[i & 7]); for (size_t i = 50; i < n; i += 211) p[i] = (u8)(i >> 3); break;     /* repcode heavy */
     case 2: fill_noise(p, n, 5); for (size_t i = 300; i + 40 < n; i += 700) memcpy(p + i, p + i - 257, 40); break;                          /* sparse matches */
     case 3: fill_text(p, n, 9); for (size_t i = 1000; i + 600 < n; i += 1500) memcpy(p + i, p + i - 999, 600); break;                      /* long matches crossing edges */
+    case 10: {   /* repcode-history probe: every 1 KiB block holds three block-local matches (the last at distance 57); every block but the first starts with a
+                  * 16-byte copy from 57 bytes back followed by a 40-byte run: whoever compresses that block needs the right second repcode */
+        fill_noise(p, n, 31);
+        for (size_t s0 = 0; s0 + 1024 <= n; s0 += 1024) {
+            if (s0) { memcpy(p + s0, p + s0 - 57, 16); memset(p + s0 + 16, p[s0 + 15], 40); } else memcpy(p + 50, p + 20, 12);
+            memcpy(p + s0 + 300, p + s0 + 200, 12); memcpy(p + s0 + 500, p + s0 + 443, 12); }
+        break; }
     case 6: case 7: case 8: case 9: {   /* long-length family (--big 2): 128 KiB of period-1000 data (leaves repcode 1000), then exactly L fresh bytes, then the period resumes:
                   * a sequence with literal length L in {65535, 65536, 65537, 65538} (around the 16-bit long-length escape) whose match is a repcode */
         static const size_t LL[] = {65535, 65536, 65537, 65538}; size_t L = LL[kind - 6], B = 128u << 10;
@@ -63,21 +70,24 @@ static size_t greedy_parse(const u8* base /* start of history */, size_t histLen
     return ns;
 }
 
-typedef struct { int mode; int calls; const u8* buf; size_t dictLen; size_t W; int minMatch; } producer_t;
+typedef struct { int mode; int calls; const u8* buf; size_t dictLen; size_t W; int minMatch; int goodBlocks /* > 0: fails from block goodBlocks+1 on */, maxSeq /* > 0: at most that many matches per block */; } producer_t;
 static size_t producer_fn(void* st, ZSTD_Sequence* out, size_t cap, const void* src, size_t srcSize, const void* dict, size_t dictSize, int level, size_t windowSize) {
     producer_t* p = (producer_t*)st; (void)dict; (void)dictSize; (void)level; (void)windowSize; p->calls++;
     if (p->mode == 1) return ZSTD_SEQUENCE_PRODUCER_ERROR;
     if (p->mode == 2) return cap + 1;                                   /* "too many sequences" */
     if (p->mode == 3) return 0;                                         /* zero sequences for a non-empty block */
+    if (p->goodBlocks > 0 && p->calls > p->goodBlocks) return ZSTD_SEQUENCE_PRODUCER_ERROR;
     /* good parse of this block only (no history: always valid), ending with the last-literals delimiter */
     size_t ll; size_t ns = greedy_parse((const u8*)src, srcSize, 0, srcSize, p->minMatch < 4 ? 4 : p->minMatch, 1u << 30, 0, out, &ll);
+    if (p->maxSeq > 0 && ns > (size_t)p->maxSeq) { size_t used = 0; ns = (size_t)p->maxSeq; for (size_t i = 0; i < ns; i++) used += out[i].litLength + out[i].matchLength; ll = srcSize - used; }
     if (ns + 1 > cap) return ZSTD_SEQUENCE_PRODUCER_ERROR;
     out[ns].offset = 0; out[ns].matchLength = 0; out[ns].litLength = (unsigned)ll; out[ns].rep = 0;
     return ns + 1;
 }
 
 static void body(void) {
-    int kind = vx_choose(g_big == 2 ? 4 : 6), delim = vx_choose(2), repSearch = vx_choose(3), dictMode = vx_choose(g_big == 2 ? 1 : 3), minMatch = (g_big == 2 ? 5 : 3) + vx_choose(g_big == 2 ? 3 : 5), variant = vx_choose(8);
+    int kind = vx_choose(g_big == 2 ? 4 : g_big ? 6 : 7), delim = vx_choose(2), repSearch = vx_choose(3), dictMode = vx_choose(g_big == 2 ? 1 : 3), minMatch = (g_big == 2 ? 5 : 3) + vx_choose(g_big == 2 ? 3 : 5), variant = vx_choose(8);
+    if (!g_big && kind == 6) kind = 10;
     if (g_big == 2) { kind += 6; if (!(variant == 0 || variant == 5 || variant == 6)) { vx_obs_u64(16); return; } }
     int oversize = (variant == 7);    /* explicit delimiters with one block larger than the frame's block-size limit: to be refused, or emitted within the limit */
     if (oversize && (!delim || g_big)) { vx_obs_u64(17); return; }
@@ -205,7 +215,7 @@ static void body(void) {
     /* ---- registered external sequence producer ---- */
     if (variant == 0 && !delim && repSearch == 0 && !dictMode) {
         for (int mode = 0; mode < 4 && !vx_failed; mode++) for (int fb = 0; fb < 2 && !vx_failed; fb++) {
-            producer_t P = { mode, 0, src, 0, W, minMatch };
+            producer_t P = { mode, 0, src, 0, W, minMatch, 0, 0 };
             ZSTD_CCtx* pc = ZSTD_createCCtx(); ZSTD_CCtx_setParameter(pc, ZSTD_c_windowLog, wlog); if (!g_big) ZSTD_CCtx_setParameter(pc, ZSTD_c_maxBlockSize, (int)B);
             ZSTD_CCtx_setParameter(pc, ZSTD_c_enableSeqProducerFallback, fb); ZSTD_CCtx_setParameter(pc, ZSTD_c_validateSequences, 1);
             ZSTD_registerSequenceProducer(pc, &P, producer_fn);
@@ -215,6 +225,20 @@ static void body(void) {
                 else { refcheck_t rc; rc_init(&rc); if (ref_check(&rc, g_dst, e, NULL, 0, src, n, g_scratch, SRCMAX)) vx_fail("sequence producer mode %d fallback %d: %s", mode, fb, rc.err); }
             } else if (!ZSTD_isError(e)) vx_fail("sequence producer failure (mode %d) without fallback: compress2 reports success", mode);
             if (!vx_failed && P.calls == 0) vx_fail("registered sequence producer never called");
+            ZSTD_freeCCtx(pc);
+        }
+    }
+    /* a producer that serves the first blocks (with exactly 1..4 matches each) and then fails, fallback on: the internal parser takes over in mid-frame and
+     * must start from the history the served blocks really left (levels below and above the repcode-search threshold) */
+    if (variant == 0 && !delim && repSearch == 0 && !dictMode && !g_big) {
+        for (int gb = 1; gb <= 3 && !vx_failed; gb++) for (int ms = 1; ms <= 4 && !vx_failed; ms++) for (int lv = 0; lv < 3 && !vx_failed; lv++) {
+            static const int LV[] = {1, 3, 12}; producer_t P = { 0, 0, src, 0, W, minMatch, gb, ms };
+            ZSTD_CCtx* pc = ZSTD_createCCtx(); ZSTD_CCtx_setParameter(pc, ZSTD_c_compressionLevel, LV[lv]); ZSTD_CCtx_setParameter(pc, ZSTD_c_windowLog, wlog); ZSTD_CCtx_setParameter(pc, ZSTD_c_maxBlockSize, (int)B);
+            ZSTD_CCtx_setParameter(pc, ZSTD_c_enableSeqProducerFallback, 1); ZSTD_CCtx_setParameter(pc, ZSTD_c_validateSequences, 1);
+            ZSTD_registerSequenceProducer(pc, &P, producer_fn);
+            size_t e = ZSTD_compress2(pc, g_dst, cap, src, n);
+            if (ZSTD_isError(e)) vx_fail("producer serving %d block(s) of %d match(es) then failing, fallback on, level %d: compress2 fails: %s", gb, ms, LV[lv], ZSTD_getErrorName(e));
+            else { refcheck_t rc; rc_init(&rc); if (ref_check(&rc, g_dst, e, NULL, 0, src, n, g_scratch, SRCMAX)) vx_fail("producer serving %d block(s) of %d match(es) then failing, fallback on, level %d: %s", gb, ms, LV[lv], rc.err); }
             ZSTD_freeCCtx(pc);
         }
     }
